@@ -14,10 +14,11 @@ import Deepali.Drv.GridDerive
 import Deepali.Drv.Itk
 import Deepali.Drv.ImageIO
 import Deepali.Drv.TransformState
+import Deepali.Drv.Heap
 namespace Deepali.Drv
 open Deepali.Proto
 
 def allHandlers : List (String × Reader String) :=
-  gridHandlers ++ sampleHandlers ++ flowHandlers ++ affineHandlers ++ bsplineHandlers ++ fdHandlers ++ lossHandlers ++ dispatchHandlers ++ imageOpsHandlers ++ gridDeriveHandlers ++ itkHandlers ++ imageioHandlers ++ tstateHandlers
+  gridHandlers ++ sampleHandlers ++ flowHandlers ++ affineHandlers ++ bsplineHandlers ++ fdHandlers ++ lossHandlers ++ dispatchHandlers ++ imageOpsHandlers ++ gridDeriveHandlers ++ itkHandlers ++ imageioHandlers ++ tstateHandlers ++ heapHandlers
 
 end Deepali.Drv
